@@ -335,6 +335,10 @@ class IoWorld(World):
         path = r.choice(cands)
         name = "tf%d" % r.randrange(2)
         if r.random() < 0.6:
+            others = [p for p in cands if p != path]
+            if others and r.random() < 0.5:
+                # the same format object is first used on a file it does not describe
+                q.append({"op": "read_mismatch", "path": r.choice(others), "obj": name, "s": s, "dt": 1})
             q.append({"op": "read_csv", "path": path, "api": "obj", "obj": name, "s": s, "dt": 5})
         return {"op": "make_format", "name": name, "path": path, "explicit": r.random() < 0.3}
 
@@ -798,6 +802,24 @@ class IoWorld(World):
         self.observed(got)
         if got != exp:
             self.fail("C13", "wkt.coords", "WKT round trip changed planimetric coordinates", exp, got)
+
+    def op_read_mismatch(self, st):
+        """A format object built for one file is used on another CSV file (other column
+        layout, maybe fewer columns).  What such a read returns is nobody's promise -- it may
+        raise, it may return nonsense -- and it is not judged; the format object belongs to
+        the caller and is used again afterwards on the file it describes."""
+        from tracklib.io.track_reader import TrackReader
+        e = self.cat.get(st["path"])
+        o = self.objs.get((st.get("s", 0), st.get("obj")))
+        if o is None or e is None or e["type"] != "csv" or e["state"] != "acked" or o["path"] == st["path"]:
+            raise Skip()
+        self._begin(st)
+        rv, exc = self.call(TrackReader.readFromFile, st["path"], o["obj"])
+        cls = "returned" if exc is None else ("exit" if isinstance(exc, SystemExit) else "raised")
+        self.stats["mismatched_read:" + cls] += 1
+        self.stats["fault_fired:mismatched_format"] += 1
+        self.probe("format_object_used_on_a_file_it_does_not_describe")
+        self.observed(cls)
 
     # -- reads that are recorded, never judged -----------------------------------------
     def op_read_unknown(self, st):
